@@ -58,6 +58,12 @@ impl Session {
         self.count(&format!("case:{}", kind));
     }
 
+    /// a marker inside the current case (objects stay alive)
+    pub fn subcase(&mut self, kind: &str) {
+        self.lines.push(format!("# sub {}", kind));
+        self.count(&format!("sub:{}", kind));
+    }
+
     pub fn count(&mut self, key: &str) {
         *self.counters.entry(key.to_owned()).or_insert(0) += 1;
     }
